@@ -724,8 +724,12 @@ void run_huge(Ctx &c) {
 		(void)t.pick(3);      // (a moving realloc would copy 4 GiB of inaccessible pages: not part of this battery)
 		c.op("allocate(%zu)", n);
 		size_t maps_before = log.maps.size();
-		char *p = (char *)pool->allocate(n);
-		VCHECK(c, "C01", p != nullptr && log.error.empty(), "allocate(%zu) failed: %s", n, log.error.c_str());
+		// C01 quantifies over sizes "up to several superblocks"; what is checked here is the statement itself for whatever the pool
+		// does return: a pool that refuses such a request (null, or its assertion hook) is not at fault, one that returns a pointer is held to it.
+		char *p = nullptr;
+		try { p = (char *)pool->allocate(n); } catch(Panic &) { c.tag("huge-request-refused"); break; }
+		if(!p) { c.tag("huge-request-refused"); continue; }
+		VCHECK(c, "C01", log.error.empty(), "allocate(%zu): %s", n, log.error.c_str());
 		HugeLog::M *reg = nullptr; for(auto &m : log.maps) if(m.live && (uintptr_t)p >= m.base && (uintptr_t)p < m.base + m.len) reg = &m;
 		VCHECK(c, "C01", reg != nullptr, "allocate(%zu) returned a pointer outside every mapping of the policy", n);
 		bool fits = (uintptr_t)p + n <= reg->base + reg->len;
